@@ -29,6 +29,7 @@ const (
 	BSilent     = "silent"       // handshake, then never answers
 	BGarbage    = "garbage"      // sends garbage bytes after the handshake
 	BFlap       = "flap"         // disconnects every few hundred ms
+	BBlink      = "blink"        // hangs up within a millisecond of every handshake, announcing a height above the chain
 	BNoCF       = "no-cf"        // does not offer compact-filter service
 	BNoWitness  = "no-witness"   // does not offer witness service
 	BTrickle    = "slow"         // honest but slow (delay per response)
@@ -151,6 +152,17 @@ func PlanFromSeed(seed int64, k int) Plan {
 		p.Peers = []PeerPlan{{Kind: BLighter, At: 40}, {Kind: BHonest}}
 		p.FirstPeer = 0
 		p.Extend, p.ReorgDepth = 0, 0
+	}
+	if k == 8 {
+		// A fixed scenario: two peers that hang up within a millisecond of
+		// every handshake (the client redials them every 300 ms) while
+		// announcing more blocks than the honest peer has.
+		p.ChainLen = 100
+		p.Checkpoints = nil
+		p.Preset = chaingen.PresetNoRetarget
+		p.Peers = []PeerPlan{{Kind: BBlink}, {Kind: BHonest}, {Kind: BBlink}}
+		p.FirstPeer = -1
+		p.Extend, p.ReorgDepth = 2, 0
 	}
 	if k == 7 {
 		// A fixed scenario: the first peer is honest but stuck at height 60,
@@ -292,6 +304,10 @@ func Build(p Plan) *Built {
 		case BFlap:
 			pr := w.AddPeer(tip)
 			b.Flaps = append(b.Flaps, pr)
+		case BBlink:
+			pr := w.AddPeer(tip)
+			pr.BlinkAfter = time.Millisecond
+			pr.StartHeightOverride = tip.Height + 500
 		case BNoCF:
 			w.AddPeer(tip).Services = wire.SFNodeNetwork | wire.SFNodeWitness
 		case BNoWitness:
@@ -600,7 +616,7 @@ func (p Plan) Describe() string {
 		cnt[k]++
 	}
 	s := ""
-	for _, k := range []string{BHonest, BTrickle, BStale, BLighter, BInvalidHdr, BLiar + ":" + netsim.LieOmitScript, BLiar + ":" + netsim.LieWrongHash, BLiar + ":" + netsim.LieUnserved, BSilent, BGarbage, BFlap, BNoCF, BNoWitness} {
+	for _, k := range []string{BHonest, BTrickle, BBlink, BStale, BLighter, BInvalidHdr, BLiar + ":" + netsim.LieOmitScript, BLiar + ":" + netsim.LieWrongHash, BLiar + ":" + netsim.LieUnserved, BSilent, BGarbage, BFlap, BNoCF, BNoWitness} {
 		if cnt[k] > 0 {
 			s += fmt.Sprintf("%s×%d ", k, cnt[k])
 		}
